@@ -419,6 +419,24 @@ pub fn run(o: &Opts) -> i32 {
                 hists.push(v);
             }
         }
+        if o.get("replay").is_none() {
+            if let Some(wf) = o.get("yieldwalk") {
+                // the edge-covering walk over the yield-authority model (KSyncYieldMC): every SetYield / ClearYield is
+                // one committed transaction; after each commit a real user (grant-all profile) tries to change the
+                // attributes that may or may not be yielded on entries of both agreements
+                let mut v = initial_script();
+                let it = |k: &str, a: &str, vv: Vec<&str>| json!({"k": k, "a": a, "v": vv});
+                for (k, step) in read_ndjson(wf).into_iter().enumerate() {
+                    v.push(json!({"op":"yield","ag":step["ag"],"y":step["y"]}));
+                    let val = format!("w{k}");
+                    for (t, a) in [("e2", "description"), ("e3", "description"), ("e1", "legalname"), ("e1", "displayname")] {
+                        v.push(json!({"op":"umod","idd":{"u":"e10","scope":"rw"},"t":t,
+                                      "ml":[it("purge", a, vec![]), it("pres", a, vec![&val])]}));
+                    }
+                }
+                hists.push(v);
+            }
+        }
         for h in hists {
             let mut w = World::new().await;
             let syncable: Vec<String> = {
